@@ -1,6 +1,7 @@
 """C09 - tunables: per-instance NetworkTables values at the documented key, last-writer register."""
 from __future__ import annotations
 
+import os
 import random
 
 from .common import Acc, stable_hash
@@ -14,7 +15,7 @@ RULE = {"C09": "generated owner classes with 1-6 tunables (defaults of every sup
                ">=2 tunables and >=1 NetworkTables-side write observed from python and >=1 python write observed from "
                "NetworkTables; distinct = hash of (definition, history)."}
 RULE["C09"] += '  Also: owners that are StateMachines or falsy objects, hints on a base class, inherited and redefined tunables, nearly-equal pre-existing struct values (compared by field), a second object bound under a used name.'
-REQUIRED = {"C09": {"falsy-owner": 100, "type-hint-on-base-class": 20, "writeDefault-true-overwrites-nearly-equal-struct": 10, "type:boolean": 50, "type:int": 50, "type:double": 50, "type:string": 50, "type:raw": 20, "type:struct:Rotation2d": 20,
+REQUIRED = {"C09": {"new-object-bound-under-a-new-name": 50, "new-object-at-the-address-of-the-collected-one": 5, "pre-existing-value-published-with-setDefault": 20, "falsy-owner": 100, "type-hint-on-base-class": 20, "writeDefault-true-overwrites-nearly-equal-struct": 10, "type:boolean": 50, "type:int": 50, "type:double": 50, "type:string": 50, "type:raw": 20, "type:struct:Rotation2d": 20,
                     "type:boolean[]": 20, "type:int[]": 20, "type:double[]": 20, "type:string[]": 20, "type:struct:Rotation2d[]": 10,
                     "empty-hinted": 30, "writeDefault-true-overwrites": 50, "writeDefault-false-preserves": 50, "writeDefault-false-preserves-falsy": 10, "subtable": 100, "redefines-inherited-tunable": 30, "base-class-instance-bound-first": 30, "statemachine-owner": 50, "negative-duration-value": 30,
                     "rebound-under-used-name": 50,
@@ -111,7 +112,8 @@ def gen_case(rng, uid):
         kind = rng.choice(KINDS)
         t = {"attr": f"t{j}{uid}", "kind": kind, "writeDefault": rng.random() < 0.6, "subtable": rng.choice([None, None, "sub", "a/b"]),
              "as_tuple": rng.random() < 0.3, "spelling": rng.randrange(3), "preexisting": rng.random() < 0.4, "pre_falsy": rng.random() < 0.4,
-             "overrides_inherited": rng.random() < 0.15, "pre_near": rng.random() < 0.5, "hint_on_base": rng.random() < 0.3}
+             "overrides_inherited": rng.random() < 0.15, "pre_near": rng.random() < 0.5, "hint_on_base": rng.random() < 0.3,
+             "pre_via_setDefault": rng.random() < 0.3}
         tun.append(t)
     via_robot = rng.random() < 0.2
     if via_robot:
@@ -155,6 +157,8 @@ def gen_case(rng, uid):
     if rng.random() < 0.3 and owner == "direct":
         # later in the process another object is bound under a name that was used before
         case["rebind"] = True
+    if rng.random() < 0.3 and owner == "direct":
+        case["fresh_after_gc"] = True
     return case
 
 
@@ -329,7 +333,12 @@ def _run_case(acc, case):
                 chans[(ii, ti)] = ch
                 if t["preexisting"]:
                     v = pre_value(t, ii)
-                    ch.publisher().set(v)
+                    if t.get("pre_via_setDefault"):
+                        # another NetworkTables client published it with setDefault(): a value all the same
+                        ch.publisher().setDefault(v)
+                        acc.ev("pre-existing-value-published-with-setDefault")
+                    else:
+                        ch.publisher().set(v)
         # ---- bind
         try:
             if case["owner"] == "direct":
@@ -480,6 +489,62 @@ def _run_case(acc, case):
                     acc.violation("C09/rebind-initial-value", f"{topic_path(inst, t)}: a second object bound under the same name reads {got!r} "
                                   f"(NetworkTables {ntv!r}), expected {want!r} (writeDefault={t['writeDefault']}, value before: {reg[(ii, ti)]!r})", case, {})
                     return
+        # ---- an object is discarded and a NEW object of the class (quite possibly at the same address) is bound under
+        #      ANOTHER name: it must talk to its own topics, and the old ones keep their values
+        if case.get("fresh_after_gc") and case["owner"] == "direct" and not case.get("sm_owner"):
+            import gc
+            ii = len(case["instances"]) - 1
+            old_inst = case["instances"][ii]
+            old = objs[ii]
+            for ti, t in enumerate(tun):
+                getattr(old, t["attr"])                       # the object was in use right up to the end
+            old_id = id(old)
+            for e_ in getattr(old, "_tunables", {}).values():
+                e_.close()
+            objs[ii] = None
+            o = None             # (the creation loop's variable still names the last instance)
+            del old
+            gc.collect()
+            # take the new object that lands at the discarded one's address if the allocator hands it out again
+            o3, spare = None, []
+            for _ in range(2000):
+                x_ = cls()
+                if id(x_) == old_id:
+                    o3 = x_
+                    break
+                spare.append(x_)
+            if o3 is None:
+                o3 = spare.pop()
+            del spare
+            new_inst = {"name": old_inst["name"] + "_n", "prefix": old_inst["prefix"]}
+            setup_tunables(o3, new_inst["name"], new_inst["prefix"])
+            objs_extra.append(o3)
+            acc.ev("new-object-bound-under-a-new-name")
+            if id(o3) == old_id:
+                acc.ev("new-object-at-the-address-of-the-collected-one")
+            for ti, t in enumerate(tun):
+                ch_new = Channel(topic_path(new_inst, t), t["kind"])
+                chans[("new", ti)] = ch_new
+                v = value_of(t["kind"], 500 + ti)
+                try:
+                    setattr(o3, t["attr"], v)
+                    got = getattr(o3, t["attr"])
+                except Exception as ex:  # noqa
+                    acc.violation("C09/access-raised", f"reading or writing a bound tunable raised {ex!r}", case, {})
+                    return
+                acc.checks += 3
+                if norm(got) != norm(v) or norm(ch_new.read()) != norm(v):
+                    acc.violation("C09/new-object-wrong-topic", f"{topic_path(new_inst, t)}: after writing {v!r} through the new object it reads "
+                                  f"{got!r}, its topic holds {ch_new.read()!r}", case, {})
+                    return
+                # (a topic nobody publishes any more loses its value - ntcore, not this library: only topics the harness itself
+                #  still publishes are compared)
+                if chans[(ii, ti)].pub is not None and norm(chans[(ii, ti)].read()) != norm(reg[(ii, ti)]):
+                    acc.violation("C09/new-object-wrong-topic", f"{topic_path(old_inst, t)} (the discarded object's topic) changed to "
+                                  f"{chans[(ii, ti)].read()!r} when the new object {new_inst['name']} was written", case, {})
+                    return
+            for k_ in [k_ for k_ in reg if k_[0] == ii]:
+                del reg[k_]
         # ---- instances never share a value: final sweep over every (instance, attribute)
         for (ii, ti), want in reg.items():
             got = getattr(objs[ii], tun[ti]["attr"])
